@@ -9,10 +9,23 @@ pub const SPECIAL: &[u8] = b"\n;,:#'\" \t*?";
 // ------------------------------------------------------------------ literals
 
 fn dec_in(rng: &mut Rng, lo: i128, hi: i128) -> Vec<u8> {
-    let v = match rng.below(6) {
+    let v = match rng.below(8) {
         0 => lo,
         1 => hi,
         2 => 0.max(lo).min(hi),
+        3 => {
+            // round numbers: powers of ten, multiples of 10^9 / 10^3, zero digit groups
+            let k = rng.below(20) as u32;
+            let base = 10i128.pow(k);
+            let v = match rng.below(4) {
+                0 => base,
+                1 => base * (1 + rng.below(9) as i128),
+                2 => base + rng.below(10) as i128,
+                _ => (1 + rng.below(18) as i128) * 1_000_000_000,
+            };
+            let v = if lo < 0 && rng.chance(1, 2) { -v } else { v };
+            v.clamp(lo, hi)
+        }
         _ => {
             let span = (hi - lo + 1) as u128;
             lo + ((rng.next() as u128 * 0x1_0000_0000u128 + rng.next() as u128) % span) as i128
@@ -97,7 +110,28 @@ pub fn special_str_payload(rng: &mut Rng, q: u8, max: usize, newlines: bool) -> 
                     v.push(b'x');
                 }
             }
-            5 => v.extend_from_slice(rng.pick(&["é", "ß", "€", "✓", "\u{1F600}"]).as_bytes()),
+            5 => {
+                const PALETTE: [&str; 17] = [
+                    "é", "ß", "€", "✓", "\u{1F600}",
+                    // code points whose low byte is a syntax character (\" ' LF ; , : # space)
+                    "\u{2122}", "\u{0122}", "\u{2022}", "\u{0127}", "\u{2227}", "\u{010A}", "\u{203B}", "\u{212C}", "\u{013A}", "\u{0123}", "\u{0120}", "\u{220A}",
+                ];
+                if rng.chance(1, 3) {
+                    // any scalar value from a few blocks
+                    let cp = match rng.below(4) {
+                        0 => 0x80 + rng.below(0x780) as u32,
+                        1 => 0x800 + rng.below(0x2800) as u32,
+                        2 => 0x3000 + rng.below(0x9000) as u32,
+                        _ => 0x1F300 + rng.below(0x400) as u32,
+                    };
+                    if let Some(c) = char::from_u32(cp) {
+                        let mut b = [0u8; 4];
+                        v.extend_from_slice(c.encode_utf8(&mut b).as_bytes());
+                    }
+                } else {
+                    v.extend_from_slice(PALETTE[rng.below(PALETTE.len())].as_bytes());
+                }
+            }
             6 => {
                 // any ASCII byte but the quote (incl. control characters)
                 let c = (rng.below(127) + 1) as u8;
@@ -275,6 +309,8 @@ pub fn valid_msg(rng: &mut Rng, m: &Model, o: &MsgOpts) -> Msg {
 pub const SYNTAX_SHAPES: &[&str] = &[
     "!", "FOO!", "FOO 1 2", "FOO ,", "FOO 1,", "FOO::BAR", "1FOO", "FOO 1,,2", "FOO @", "SYST:", "FOO &",
     "FOO #HZZ", "FOO 1e", "\"str\"", "FOO??", "FOO ?", "*", "**RST", "FOO #Q9", "FOO #B2", "= 1",
+    // malformed block headers that are complete (no data is awaited)
+    "BLK #1:", "BLK #1/", "BLK #1a", "BLK #2 1x", "BLK #0", "BLK #", "BLK #1-", "BLK #1+", "BLK #2:0",
 ];
 
 /// the declaration `path` (compound, spelled) with the same kind exists?
